@@ -167,7 +167,12 @@ func (r *Runner) checkOptOutMsg(c *MCtr, res *api.LinuxResources, how string) {
 		if cpu.Cpus != "" && sameSetStr(cpu.Cpus, c.Shadow.Cpus) {
 			r.Count("c12_cpus_echoed_unchanged")
 		} else if cpu.Cpus != "" {
-			r.Violate("C12", "cpus-told", how+":"+r.optOutKind(c, true), "%s: CPU-opted-out container %s was told cpuset %q (had %q)", how, c.Key, cpu.Cpus, c.Shadow.Cpus)
+			sg := how + ":" + r.optOutKind(c, true)
+			if r.Stats["create_failed"]+r.Stats["update_failed"] > 0 && (how == "update-reply" || how == "reconf-push") {
+				// the echo/flush of a cached value that a failed request never delivered (KF1)
+				sg += ":after-failed-request"
+			}
+			r.Violate("C12", "cpus-told", sg, "%s: CPU-opted-out container %s was told cpuset %q (had %q)", how, c.Key, cpu.Cpus, c.Shadow.Cpus)
 		}
 	}
 	if r.memOptOut(c) {
